@@ -465,11 +465,21 @@ from exactly_lib.impls.instructions.multi_phase.utils import instruction_from_pa
 
 P_RUN = 'exactly_lib.impls.instructions.multi_phase.utils.instruction_from_parts_for_executing_program'
 
-M.contract(P_RUN + ':TheInstructionEmbryo.main',
+M.contract(P_RUN + ':TheInstructionEmbryo.main', props=BOTH,
            params=dict(self=Inst(run_instr.TheInstructionEmbryo, _program=SDV),
                        environment=ENV_POST_SDS, settings=Any_, os_services=OS_SERVICES),
            returns=Inst(run_instr.ExecutionResultAndStderr, _tuple=[Int, Opt(Str), Any_, Any_]),
            ensures={
+               'C10: the process runs the command of the resolved program, gets the stdin parts of the program (in '
+               'order), and writes stdout / stderr into the storage directory of the instruction':
+                   lambda environment, trace:
+                   executions(trace)[0][1] is the_program(trace).command
+                   and len([e for e in trace if e[0] == STDIN_OF_SEQUENCE]) == 1
+                   and [e[1]['stdin_parts'] for e in trace if e[0] == STDIN_OF_SEQUENCE][0] is the_program(trace).stdin
+                   and executions(trace)[0][3].output.out.g_path
+                   is environment._tmp_dir_space._root_dir__may_not_exist / 'stdout'
+                   and executions(trace)[0][3].output.err.g_path
+                   is environment._tmp_dir_space._root_dir__may_not_exist / 'stderr',
                'one process start on the OS services, with the settings object of the environment (its timeout)':
                    lambda environment, os_services, trace:
                    len(executions(trace)) == 1
